@@ -132,9 +132,12 @@ class Exec(StmtMixin):
         for n in calls:
             t = ast.unparse(n.func)
             texts.update((t, "%s/%d" % (t, len(n.args)), "%s#%d" % (t, self.call_occurrence(n, t))))
+        # a hook whose call has disappeared leaves the contract undecided (exit 2), but the rest of the contract is still
+        # verified: an obligation refuted there is a violation whatever became of the vanished call
+        self.unbound_hooks = []
         for h in c.hooks:
             if h[0] in ("before", "after", "after-await") and not any(fnmatch.fnmatchcase(t, h[1]) for t in texts):
-                raise BindingError("hook pattern %r of %s matches no call in the function" % (h[1], c.qual))
+                self.unbound_hooks.append("hook pattern %r of %s matches no call in the function" % (h[1], c.qual))
         # c.immutable("Class.field"): the field is assigned nowhere in the package except in the real class's __init__
         for loc in getattr(c, "immutable_", []):
             cls, _, fld = loc.partition(".")
@@ -512,6 +515,9 @@ def verify_contract(qual, pid, timeout_ms=20000, cvc5_agree=False):
         out["lines"] = [ex.fnode.lineno, ex.fnode.end_lineno]
         out["file"] = os.path.relpath(ex.module.path, source.REPO)
         out["verified_body"] = c.verify_body
+        if getattr(ex, "unbound_hooks", None):
+            out["status"] = "binding-error"
+            out["error"] = "; ".join(ex.unbound_hooks)
     except BindingError as e:
         out["status"] = "binding-error"
         out["error"] = str(e)
